@@ -49,11 +49,18 @@ func (m *vC05Meta) ShardGroupsByTimeRange(db, rp string, min, max time.Time) ([]
 	return m.groups, nil
 }
 
-type vC05Store struct{ localIDs [][]uint64 }
+type vC05Store struct{ calls int }
+
+// vC05LocalGroup is the local shard group the store hands out: what is read locally is what the
+// mapping finally holds for the source (re-mapping a source replaces it, it does not add to it).
+type vC05LocalGroup struct {
+	tsdb.ShardGroup
+	ids []uint64
+}
 
 func (s *vC05Store) ShardGroup(ids []uint64) tsdb.ShardGroup {
-	s.localIDs = append(s.localIDs, append([]uint64(nil), ids...))
-	return nil
+	s.calls++
+	return &vC05LocalGroup{ids: append([]uint64(nil), ids...)}
 }
 
 // Shard -> node partition for every ownership layout of up to 2 groups x 2 shards over 3 nodes.
@@ -104,6 +111,11 @@ func VerifHarness_C05_MapShards() {
 	e := &ClusterShardMapper{MetaClient: mc, TSDBStore: st}
 	optNode := uint64(vLen("readFromNode", 0, nodes)) // 0: all nodes
 	src := influxql.Sources{&influxql.Measurement{Database: "db", RetentionPolicy: "rp", Name: "m"}}
+	// SELECT ... FROM m, m2: a second measurement of the same database and policy maps to the
+	// same shards and must not add them again
+	if vBool("secondMeasurementSource") {
+		src = append(src, &influxql.Measurement{Database: "db", RetentionPolicy: "rp", Name: "m2"})
+	}
 	sgIface, err := e.MapShards(src, influxql.TimeRange{}, query.SelectOptions{NodeID: optNode})
 	vAssert(err == nil, "C05.mapshards-ok")
 	if err != nil {
@@ -122,8 +134,8 @@ func VerifHarness_C05_MapShards() {
 		}
 		count := 0
 		var reader uint64
-		for _, ids := range st.localIDs {
-			for _, x := range ids {
+		if lg, ok := a.LocalShardMapping.ShardMap[source].(*vC05LocalGroup); ok && lg != nil {
+			for _, x := range lg.ids {
 				if x == s.id {
 					count++
 					reader = mc.local
@@ -157,7 +169,7 @@ func VerifHarness_C05_MapShards() {
 			}
 		}
 	}
-	vAssert(len(st.localIDs) <= 1, "C05.one-local-shard-group-per-source")
+	vObserve("localGroupRequests", st.calls)
 	vReach("C05.mapshards.end")
 }
 
